@@ -78,28 +78,28 @@ theorem lookupAll_eq_some (table : String → Option Cal) : ∀ (ns : List Strin
           simp
 
 /-- A name with no pipe is the union of the looked-up parts, no settlement calendars; the name is
-interpreted regardless of letter case (only `name.toLower` is consulted). -/
+interpreted regardless of letter case (only `lowerStr name` is consulted). -/
 theorem C06_named_members (table : String → Option Cal) (name p0 : String) (cs : List Cal)
-    (hs : name.toLower.splitOn "|" = [p0]) (hp : (p0.splitOn ",").map table = cs.map some) :
-    namedTryNew table name = .ok (name.toLower, ⟨cs, none⟩) := by
+    (hs : (lowerStr name).splitOn "|" = [p0]) (hp : (p0.splitOn ",").map table = cs.map some) :
+    namedTryNew table name = .ok (lowerStr name, ⟨cs, none⟩) := by
   unfold namedTryNew
   simp only [hs, parseCals, (lookupAll_eq_some table _ cs).2 hp]
 
 /-- A name `members|settlement` is the union of the members with the looked-up settlement calendars. -/
 theorem C06_named_settlement (table : String → Option Cal) (name p0 p1 : String) (cs ss : List Cal)
-    (hs : name.toLower.splitOn "|" = [p0, p1])
+    (hs : (lowerStr name).splitOn "|" = [p0, p1])
     (hp0 : (p0.splitOn ",").map table = cs.map some) (hp1 : (p1.splitOn ",").map table = ss.map some) :
-    namedTryNew table name = .ok (name.toLower, ⟨cs, some ss⟩) := by
+    namedTryNew table name = .ok (lowerStr name, ⟨cs, some ss⟩) := by
   unfold namedTryNew
   simp only [hs, parseCals, (lookupAll_eq_some table _ cs).2 hp0, (lookupAll_eq_some table _ ss).2 hp1]
 
 /-- Converse: whatever is accepted is such a union of looked-up parts. -/
 theorem C06_named_is_union (table : String → Option Cal) (name n : String) (u : UnionCal)
     (h : namedTryNew table name = .ok (n, u)) :
-    n = name.toLower ∧
-    ((∃ p0, name.toLower.splitOn "|" = [p0] ∧ (p0.splitOn ",").map table = u.calendars.map some
+    n = lowerStr name ∧
+    ((∃ p0, (lowerStr name).splitOn "|" = [p0] ∧ (p0.splitOn ",").map table = u.calendars.map some
         ∧ u.settlement = none) ∨
-     (∃ p0 p1 ss, name.toLower.splitOn "|" = [p0, p1] ∧ (p0.splitOn ",").map table = u.calendars.map some
+     (∃ p0 p1 ss, (lowerStr name).splitOn "|" = [p0, p1] ∧ (p0.splitOn ",").map table = u.calendars.map some
         ∧ u.settlement = some ss ∧ (p1.splitOn ",").map table = ss.map some)) := by
   simp only [namedTryNew] at h
   split at h
@@ -128,7 +128,7 @@ theorem C06_named_is_union (table : String → Option Cal) (name n : String) (u 
 
 /-- More than one '|' is reported as an error. -/
 theorem C06_error_pipes (table : String → Option Cal) (name : String)
-    (h : (name.toLower.splitOn "|").length > 2) : namedTryNew table name = .err := by
+    (h : ((lowerStr name).splitOn "|").length > 2) : namedTryNew table name = .err := by
   simp only [namedTryNew]
   split
   · rename_i hs; rw [hs] at h; simp at h
@@ -137,7 +137,7 @@ theorem C06_error_pipes (table : String → Option Cal) (name : String)
 
 /-- An unknown name in any position is reported as an error. -/
 theorem C06_error_unknown (table : String → Option Cal) (name part nm : String)
-    (hp : part ∈ name.toLower.splitOn "|") (hn : nm ∈ part.splitOn ",") (hu : table nm = none) :
+    (hp : part ∈ (lowerStr name).splitOn "|") (hn : nm ∈ part.splitOn ",") (hu : table nm = none) :
     namedTryNew table name = .err := by
   have key : ∀ p, nm ∈ p.splitOn "," → parseCals table p = none := by
     intro p hmem
